@@ -31,6 +31,7 @@ Definition proj (x o : sx) : sx :=
   else if str_eqb fam (bytes "limrt") then proj_limrt o
   else if str_eqb fam (bytes "cfg") then proj_cfg o
   else if str_eqb fam (bytes "crash") then proj_crash x o
+  else if str_eqb fam (bytes "reload") then proj_reload x o
   else if str_eqb fam (bytes "coord") then proj_coord o
   else o.
 
